@@ -62,3 +62,23 @@ def register(check):
           floors={"quick": {"cancel_runs": 1200, "cancel_in_flight": 700, "cancel_after_completion": 20, "cancel_won_race": 500, "cancel_lost_race_normal_outcome": 20, "table_checks": 1200},
                   "thorough": {"cancel_runs": 6000, "cancel_in_flight": 3500, "cancel_won_race": 2500, "cancel_lost_race_normal_outcome": 100}},
           assumptions=COMMON_ASSUMPTIONS)
+    check("C03",
+          level="exploration",
+          rule="three bystander RPCs with fixed scripts (bidi ping-pong, server-stream with a lagging reader, client-stream; messages up to 100 kB) x one disturber of each kind (erroring, unknown/malformed/empty method, cancelled early/mid-stream, "
+               "caller deadline, handler deadline, never-reading handler / caller / both / five stalled streams, refused after shutdown, panicking handler) started at a PRNG-chosen point, x {forward, reverse} x {gate-driven random frame interleaving, carrier capacity 1, 4, unbounded} "
+               "x {flow control, revision zero (where the claim applies)}, plus raw-peer disturbers (unsupported revision, malformed names, overruns) and the non-UTF-8 probes; "
+               "non-trivial = at least one bystander judged; distinct = distinct (kind, cfg, observed op/outcome shape incl. gate order effects)",
+          nontrivial="bystanders_checked",
+          floors={"quick": {"disturb_runs": 300, "bystanders_checked": 800, "gate_releases": 10000, "raw_conversations": 100, "nonutf8_probes": 6},
+                  "thorough": {"disturb_runs": 6000, "bystanders_checked": 16000, "gate_releases": 200000}},
+          assumptions=COMMON_ASSUMPTIONS + ["no-head-of-line-blocking is asserted only when revision one was negotiated, as the statement says"])
+    check("C05",
+          level="exploration",
+          rule="(a) flow-control core in isolation: the library's private sender/receiver pair wired over two FIFO queues in a synctest bubble; every atomic-level step (load, before-wait, before-CAS, reserved, update-added, before-credit) and every wire delivery is parked for a PRNG-chosen virtual duration, "
+               "which imposes a random total order on those steps; windows {1,3,10,100,16384,65536}, boundary sizes, consumer pacing {eager, naps, stops mid-way}, cancellation at a random step; conservation monitor after every event, progress oracle at quiescence; "
+               "(b) whole tunnels {forward, reverse, nested} x carrier capacity {unbounded,1,4}: a stream of 6-15 messages (0 B..200 kB, total >> window) whose reader is stepped one message at a time, judged on the tap at every quiescent point, with unary round trips in between; "
+               "non-trivial = a conservation/progress obligation was evaluated; distinct = distinct set of observed step orders (a) or op/outcome shape (b)",
+          nontrivial="tap_events",
+          floors={"quick": {"fccore_runs": 4000, "fccore_waits_entered": 3000, "fccore_update_between_load_and_wait": 300, "fccore_sender_observed_blocked": 300, "fccore_cancelled_runs": 200, "progress_runs": 150, "progress_blocked_points": 300},
+                  "thorough": {"fccore_runs": 200000, "fccore_waits_entered": 150000, "fccore_update_between_load_and_wait": 15000, "progress_runs": 5000, "progress_blocked_points": 10000}},
+          assumptions=COMMON_ASSUMPTIONS + ["unbounded total volume is sampled up to a few MB per stream; 'never strands' is decided at bubble quiescence (nothing runnable, no timer pending)"])
